@@ -3,6 +3,7 @@ use crate::engine::{Check, Run};
 use serde_json::Value;
 
 pub mod pipe;
+pub mod c01;
 pub mod c02;
 pub mod c03;
 pub mod c04;
@@ -17,11 +18,13 @@ pub mod c12;
 pub mod c13;
 pub mod c14;
 pub mod c15;
+pub mod c16;
 pub mod c17;
 pub mod c18;
 
 pub fn run(id: &str, run: &Run) {
     match id {
+        "C01" => c01::run(run),
         "C02" => c02::run(run),
         "C03" => c03::run(run),
         "C04" => c04::run(run),
@@ -34,6 +37,7 @@ pub fn run(id: &str, run: &Run) {
         "C11" => c11::run(run),
         "C12" => c12::run(run),
         "C15" => c15::run(run),
+        "C16" => c16::run(run),
         "C17" => c17::run(run),
         "C18" => c18::run(run),
         "C14" => c14::run(run),
@@ -47,6 +51,7 @@ pub fn run(id: &str, run: &Run) {
 
 pub fn replay(id: &str, run: &Run, case: &Value) -> Check {
     match id {
+        "C01" => c01::replay(run, case),
         "C02" => c02::replay(run, case),
         "C03" => c03::replay(run, case),
         "C04" => c04::replay(run, case),
@@ -59,6 +64,7 @@ pub fn replay(id: &str, run: &Run, case: &Value) -> Check {
         "C11" => c11::replay(run, case),
         "C12" => c12::replay(run, case),
         "C15" => c15::replay(run, case),
+        "C16" => c16::replay(run, case),
         "C17" => c17::replay(run, case),
         "C18" => c18::replay(run, case),
         "C14" => c14::replay(run, case),
@@ -70,6 +76,9 @@ pub fn replay(id: &str, run: &Run, case: &Value) -> Check {
     }
 }
 
-pub fn child(_args: &[String]) -> i32 {
-    2
+pub fn child(args: &[String]) -> i32 {
+    match args.first().map(|s| s.as_str()) {
+        Some("c16-race") => c16::race_child(args.get(1).and_then(|s| s.parse().ok()).unwrap_or(1)),
+        _ => 2,
+    }
 }
